@@ -21,6 +21,7 @@ class PureCheck:
     consts = ""
 
     # ---- to be provided by subclasses
+    subst_every = 0  # > 0: about every k-th input is run again over another alphabet (enc.SUBSTS)
     warm_every = 0   # > 0: every k-th input is executed a second time on operands that were looked at before
 
     def design_runs(self, tier):
@@ -75,6 +76,19 @@ class PureCheck:
             step = self.warm_every if tier == "quick" else max(2, self.warm_every - 1)
             wr = common.rng(self.pid + ":warm")
             inputs += [dict(inp, warm=wr.randrange(1, 4096)) for inp in inputs if wr.random() * step < 1]
+        if getattr(self, "subst_every", 0):
+            # the same inputs over other alphabets (enc.SUBSTS): a pseudo-randomly chosen 1/subst_every of them
+            import enc
+            sr = common.rng(self.pid + ":subst")
+            extra = []
+            for inp in inputs:
+                if isinstance(inp, dict) and sr.random() * self.subst_every < 1:
+                    k = sr.randrange(len(enc.SUBSTS))
+                    v = enc.subst(inp, enc.SUBSTS[k])
+                    if v != inp:
+                        v["subst"] = k
+                        extra.append(v)
+            inputs += extra
         if common.LIGHT and len(inputs) > 2500:
             lr = common.rng(self.pid + ":light")
             inputs = lr.sample(inputs, 2500)
